@@ -271,6 +271,14 @@ def canon_events(evs):
     return [e for e in evs if not e.startswith("send:")] + [e for e in evs if e.startswith("send:")]
 
 
+def hello_payload(C, conn):
+    """a CLIENT_HELLO message body of the size the server expects at the current MTU"""
+    m = C.HandshakeClientHelloMessage()
+    m.client_pubkey = conn.session_key.getPublicKey()
+    m.client_version = conn.version
+    return m.dumpb()
+
+
 def short_hello(real, rng, tq):
     """a CLIENT_HELLO that is well formed in every respect (magic, count, header length, CRC, genuine key, version) except that its
     random padding is cut short or absent: only the padding makes a hello at least as large as the reply it asks for"""
@@ -296,7 +304,7 @@ def short_hello(real, rng, tq):
 
 
 def gen_server_case(real, rng, cid, n_iter=50, n_clients=3, hostile=0.3, mtu=1500, act_p=0.2, collide=0.3, block=(66,),
-                    cfg=None, silent=0.03, leave=0.03, stop_early=0.1, loss=0.1, dup_next=0.0, spawn=0.3, rechal=0.03):
+                    cfg=None, silent=0.03, leave=0.03, stop_early=0.1, loss=0.1, dup_next=0.0, spawn=0.3, rechal=0.03, stack=0.0):
     """one server history generated while the REAL loop runs; returns (case lines, outputs, records, client log)"""
     C = real.C
     cfg = dict(cfg or {"ka": 96, "ot": 1024, "ct": rng.choice([2048, 5120]), "tt": rng.choice([1024, 2048])})
@@ -363,6 +371,19 @@ def gen_server_case(real, rng, cid, n_iter=50, n_clients=3, hostile=0.3, mtu=150
                     continue
                 if cl["phase"] == "up":
                     emit("cupd %s t=%d" % (name, tq))
+                    if conn.session_key_bytes and not cl.get("keyed"):
+                        cl["keyed"] = True
+                        hp = hello_payload(C, conn)
+                        n = min(4, (C.Packet.RECV_SIZE - 36) // (5 + len(hp)))
+                        if n >= 2 and rng.random() < stack:
+                            # the peer holds the session key but never answers the challenge: ONE sealed datagram of type
+                            # CHALLENGE_RESP carrying n CLIENT_HELLO messages, then silence
+                            body = b"".join(struct.pack(">HHB", len(hp), 100 + i, C.PacketType.CLIENT_HELLO.value) + hp for i in range(n))
+                            items.append((cl["addr"], None, "!3,%d,%d,%d,%d,%d:%s:%s" % (
+                                (int(conn.seq_sending) % 65535) + 1, int(conn.bitfield_pkt.current_seqnum), conn.bitfield_pkt.bits,
+                                tq // 1024, n, body.hex(), conn.session_key_bytes.hex())))
+                            cl["phase"] = "silent"
+                            continue
                     if conn.status.value == 2 and rng.random() < 0.5:
                         emit("send %s len=%d seed=%d retry=%d cb=-" % (name, rng.choice([4, 8, 40, 300, 1500]), rng.randint(1, 10 ** 6),
                                                                        rng.choice([0, 0, -1])))
@@ -452,6 +473,7 @@ def gen_server_case(real, rng, cid, n_iter=50, n_clients=3, hostile=0.3, mtu=150
                         d = d[:rng.choice([len(d) - 1, len(d) - 40, 200, 30])]
                     addr = (str(rng.choice([66, 92, 93, 94])), rng.randint(1, 3))
                 items.append((addr, d, d.hex() or "-"))
+            items = [(a, real.craft(sp, True) if d is None else d, sp) for a, d, sp in items]
             rng.shuffle(items)
             for addr, _d, spec_s in late:
                 items.append((addr, real.craft(spec_s, True), spec_s))
